@@ -257,6 +257,7 @@ func checkPrecedenceDescent(w *World, r *Report) {
 	}
 	r.floor("full-expression parser functions", len(fullExpr), 1)
 	nUnary := 0
+	unaryBuilders := w.operatorNodeBuilders()
 	for _, fd := range w.sortedDecls() {
 		if !w.parserSide(fd) {
 			continue
@@ -268,7 +269,7 @@ func checkPrecedenceDescent(w *World, r *Report) {
 				return
 			}
 			g := c.Call.StaticCallee()
-			if g == nil || g.Signature.Results().Len() != 1 || !isNamed(g.Signature.Results().At(0).Type(), twigPath, "UnaryNode") {
+			if g == nil || unaryBuilders[g] != "UnaryNode" {
 				return
 			}
 			// operand = the Node-typed argument
